@@ -213,33 +213,49 @@ class Batches:
 
 ALPHA = '()[]=#:-+.>%/\\@HCcNnOoSsPpFlBrI0129*~$!&,;'
 ATOM_ALPHA = '0145CcHaselrJjyt@+-:'
+ATOM_ALPHA2 = '05CH@+-:se'
+
+
+def sweep_plan(full, l_full, small, l_small):
+    """(prefix, alphabet name, alphabet) triples: every string of length <= l_full over `full` and every string of length
+    l_full < n <= l_small over `small` is prefix + one character of the alphabet"""
+    plan = []
+    prefixes = ['']
+    for k in range(l_full):
+        plan += [(p, 'al', full) for p in prefixes]
+        if k + 1 < l_full:
+            prefixes = [p + c for p in prefixes for c in full]
+    prefixes = [''.join(t) for t in itertools.product(small, repeat=l_full)] if l_small > l_full else []
+    for k in range(l_full, l_small):
+        plan += [(p, 'al2', small) for p in prefixes]
+        if k + 1 < l_small:
+            prefixes = [p + c for p in prefixes for c in small]
+    return plan
+
+
+ALPHA2 = '()[]=#:-.%/\\@CclB1;!,0'
 
 
 def corr_tokenize(ck):
     from chython.files.daylight.tokenize import _tokenize, smiles_tokenize
-    L = 3 if ck.tier == 'quick' else 4
-    bt = Batches(ck, 'c03tok', extra=f'Definition al : string := {cstr(ALPHA)}.')
+    lf, ls = (2, 3) if ck.tier == 'quick' else (3, 4)
+    bt = Batches(ck, 'c03tok', extra=f'Definition al : string := {cstr(ALPHA)}. Definition al2 : string := {cstr(ALPHA2)}.')
     n = 0
-    prefixes = ['']
-    for k in range(L):
-        nxt = []
-        for p in prefixes:
-            raw, tok = [], []
-            for c in ALPHA:
-                s = p + c
-                r = guarded(lambda: _tokenize(s), stokens)
-                t = guarded(lambda: smiles_tokenize(s), stokens)
-                raw.append(r)
-                tok.append(t)
-                n += 1
-                ck.case(('tok', s), nontrivial=not t.startswith('!'))
-                ck.count('tokenize:' + (t if t.startswith('!') else 'Ok'))
-                if k + 1 < L:
-                    nxt.append(s)
-            ins = [p + c for c in ALPHA]
-            bt.add('b_raw', f'(sweep {cstr(p)} al)', ins, raw)
-            bt.add('b_tok', f'(sweep {cstr(p)} al)', ins, tok)
-        prefixes = nxt
+    for p, alname, alpha in sweep_plan(ALPHA, lf, ALPHA2, ls):
+        raw, tok = [], []
+        for c in alpha:
+            s = p + c
+            r = guarded(lambda: _tokenize(s), stokens)
+            t = guarded(lambda: smiles_tokenize(s), stokens)
+            raw.append(r)
+            tok.append(t)
+            n += 1
+            ck.case(('tok', s), nontrivial=not t.startswith('!'))
+            ck.count('tokenize:' + (t if t.startswith('!') else 'Ok'))
+        ins = [p + c for c in alpha]
+        bt.add('b_raw', f'(sweep {cstr(p)} {alname})', ins, raw)
+        bt.add('b_tok', f'(sweep {cstr(p)} {alname})', ins, tok)
+    L = f'{lf} over {len(ALPHA)} symbols, <= {ls} over {len(ALPHA2)} symbols'
     # boundary inputs: the empty string, characters outside ASCII (str.isnumeric on Latin-1), white space, quotes
     special = ['', 'C\xb2', 'C%1\xb2', 'C%\xb9\xb9', 'C\xbd', '%\xb2', 'C%1', 'C%12C%12', 'C%123', '[\x85]', 'C\x00', 'C"', "C'", 'C l', '[C"]',
                'C-;!@C', 'C-;!!@C', 'C-,=;@C', 'C-;@;@C', ';!', 'C-;!', 'C!-;@C', 'C!~', 'C-,', 'C-,=,#C', 'Cl', 'Br', 'Bl', 'Cr', 'ClBr', 'CBr',
@@ -251,7 +267,7 @@ def corr_tokenize(ck):
     n += len(special)
     ck.extra['tokenize_strings'] = n
     ck.sample({'tokenize': 'C(=O)[O-]%12Cl', 'text': guarded(lambda: _tokenize('C(=O)[O-]%12Cl'), stokens)})
-    return bt.run(f'_tokenize and smiles_tokenize == Coq model on all {n} strings of length <= {L} over {len(ALPHA)} symbols + boundary inputs',
+    return bt.run(f'_tokenize and smiles_tokenize == Coq model on all {n} strings of length <= {L} + boundary inputs',
                   single=cstr)
 
 
@@ -260,25 +276,20 @@ def corr_tokenize(ck):
 
 def corr_atom(ck):
     from chython.files.daylight.tokenize import _atom_parse
-    L = 4 if ck.tier == 'quick' else 5
-    bt = Batches(ck, 'c03atom', extra=f'Definition al : string := {cstr(ATOM_ALPHA)}.')
+    lf, ls = (3, 4) if ck.tier == 'quick' else (4, 5)
+    bt = Batches(ck, 'c03atom', extra=f'Definition al : string := {cstr(ATOM_ALPHA)}. Definition al2 : string := {cstr(ATOM_ALPHA2)}.')
     n = 0
-    prefixes = ['']
-    for k in range(L):
-        nxt = []
-        for p in prefixes:
-            exp = []
-            for c in ATOM_ALPHA:
-                s = p + c
-                e = guarded(lambda: _atom_parse(s), stoken)
-                exp.append(e)
-                n += 1
-                ck.case(('atom', s), nontrivial=not e.startswith('!'))
-                ck.count('atom_parse:' + (e if e.startswith('!') else 'Ok'))
-                if k + 1 < L:
-                    nxt.append(s)
-            bt.add('b_atom', f'(sweep {cstr(p)} al)', [p + c for c in ATOM_ALPHA], exp)
-        prefixes = nxt
+    for p, alname, alpha in sweep_plan(ATOM_ALPHA, lf, ATOM_ALPHA2, ls):
+        exp = []
+        for c in alpha:
+            s = p + c
+            e = guarded(lambda: _atom_parse(s), stoken)
+            exp.append(e)
+            n += 1
+            ck.case(('atom', s), nontrivial=not e.startswith('!'))
+            ck.count('atom_parse:' + (e if e.startswith('!') else 'Ok'))
+        bt.add('b_atom', f'(sweep {cstr(p)} {alname})', [p + c for c in alpha], exp)
+    L = f'{lf} over {len(ATOM_ALPHA)} symbols, <= {ls} over {len(ATOM_ALPHA2)} symbols'
     # every field together, every charge spelling, limits of the counted repetitions
     from chython.files.daylight.tokenize import charge_dict
     special = ['', '13CH4+', '13C@@H+:12', '999Cl@H4----:9999', '1000C', '0C', '12C:12345', 'C:', 'C:0', 'C:0000', 'C:00000', 'se', 'as', 'te', 'Se@@H',
@@ -293,7 +304,7 @@ def corr_atom(ck):
     n += len(special)
     ck.extra['atom_parse_bodies'] = n
     ck.sample({'atom_parse': '13C@@H+:12', 'text': guarded(lambda: _atom_parse('13C@@H+:12'), stoken)})
-    return bt.run(f'_atom_parse == Coq matcher on all {n} bracket bodies of length <= {L} over {len(ATOM_ALPHA)} symbols + field combinations',
+    return bt.run(f'_atom_parse == Coq matcher on all {n} bracket bodies of length <= {L} + field combinations',
                   single=cstr)
 
 
@@ -311,41 +322,619 @@ def token_alphabet():
 
 def corr_parser(ck):
     from chython.files.daylight.parser import parser
-    from chython.files.daylight.tokenize import smiles_tokenize
     alpha = token_alphabet()
-    if ck.tier == 'quick':
-        alpha = alpha[:14]
-    L = 4 if ck.tier == 'quick' else 5
-    extra = 'Import ListNotations. Open Scope Z_scope. Definition ta : list token := ' + clist(ctoken(f()) for f in alpha) + '.'
+    # quick: every sequence of <= 3 of the 16 tokens, and every sequence of 4 of the first 11 (atoms, bonds, marks, brackets, dot)
+    lf, ls, nsmall = (3, 4, 11) if ck.tier == 'quick' else (4, 5, 12)
+    order = [0, 1, 2, 4, 5, 6, 8, 9, 10, 11, 12, 3, 7, 13, 14, 15]          # the reduced alphabet = the first nsmall of these
+    alpha = [alpha[i] for i in order]
+    extra = ('Import ListNotations. Open Scope Z_scope. Definition ta : list token := ' + clist(ctoken(f()) for f in alpha) + '. ' +
+             f'Definition ta2 : list token := firstn {nsmall} ta.')
     bt = Batches(ck, 'c03parse', extra=extra)
     n = 0
+    plan = []
     prefixes = [()]
-    for k in range(L):
-        nxt = []
-        for p in prefixes:
-            exp = {True: [], False: []}
-            ins = []
-            for i in range(len(alpha)):
-                seq = p + (i,)
-                ins.append(seq)
-                for strong in (False, True):
-                    e = guarded(lambda: parser([alpha[j]() for j in seq], strong), sparsed)
-                    exp[strong].append(e)
-                    ck.count(f'parser:' + (e if e.startswith('!') else 'Ok'))
-                n += 1
-                ck.case(('parse', seq), nontrivial=not exp[False][-1].startswith('!'))
-                if k + 1 < L:
-                    nxt.append(seq)
+    for k in range(lf):
+        plan += [(p, 'ta', len(alpha)) for p in prefixes]
+        if k + 1 < lf:
+            prefixes = [p + (i,) for p in prefixes for i in range(len(alpha))]
+    prefixes = list(itertools.product(range(nsmall), repeat=lf))
+    for k in range(lf, ls):
+        plan += [(p, 'ta2', nsmall) for p in prefixes]
+        if k + 1 < ls:
+            prefixes = [p + (i,) for p in prefixes for i in range(nsmall)]
+    for p, taname, width in plan:
+        exp = {True: [], False: []}
+        ins = []
+        for i in range(width):
+            seq = p + (i,)
+            ins.append(seq)
             for strong in (False, True):
-                bt.add(f'b_parse {cbool(strong)}', f'(psweep ta {clist(str(j) + "%nat" for j in p)})', ins, exp[strong])
-        prefixes = nxt
+                e = guarded(lambda: parser([alpha[j]() for j in seq], strong), sparsed)
+                exp[strong].append(e)
+                ck.count(f'parser:' + (e if e.startswith('!') else 'Ok'))
+            n += 1
+            ck.case(('parse', seq), nontrivial=not exp[False][-1].startswith('!'))
+        for strong in (False, True):
+            bt.add(f'b_parse {cbool(strong)}', f'(psweep2 ta {taname} {clist(str(j) + "%nat" for j in p)})', ins, exp[strong])
+    L = f'{lf} over {len(alpha)} tokens, <= {ls} over {nsmall} tokens'
     # the empty token list
     for strong in (False, True):
         bt.add(f'b_parse {cbool(strong)}', '[[]]', [()], [guarded(lambda: parser([], strong), sparsed)])
     ck.extra['parser_token_sequences'] = n + 1
-    ok1 = bt.run(f'parser == Coq machine on all {n + 1} token sequences of length <= {L} over {len(alpha)} tokens, strong and non-strong',
+    ok1 = bt.run(f'parser == Coq machine on all {n + 1} token sequences of length <= {L}, strong and non-strong',
                  single=lambda seq: clist(f'nth {j} ta (0, PNone)' for j in seq))
     return ok1
+
+
+# ----------------------------------------------------------------------------------------------------------------
+# 4. postprocess_parsed_molecule / postprocess_parsed_reaction: exhaustive small map lists + random reactions
+
+def czs(l):
+    return clist(cz(x) for x in l)
+
+
+def czss(l):
+    return clist(czs(x) for x in l)
+
+
+def corr_mapping(ck):
+    from chython.files._mapping import postprocess_parsed_molecule, postprocess_parsed_reaction
+    rng = random.Random(f'{ck.seed}:c03map')
+    bt = Batches(ck, 'c03map', extra='Import ListNotations. Open Scope Z_scope.')
+
+    def atoms_of(maps):
+        return [{'element': 'C', 'parsed_mapping': (m or None)} if m or rng.random() < 0.5 else {'element': 'C'} for m in maps]
+
+    def mol_run(maps, remap, ignore):
+        data = {'atoms': atoms_of(maps), 'log': []}
+        postprocess_parsed_molecule(data, remap=remap, ignore=ignore)
+        return data['mapping']
+
+    vals = (0, 1, 2, 5)
+    L = 4 if ck.tier == 'quick' else 6
+    lists = [()]
+    for k in range(1, L + 1):
+        lists.extend(itertools.product(vals, repeat=k))
+    lists += [(0,) * 7, (3, 3, 3, 3), (9, 0, 9, 0, 9), (1, 2, 3, 4, 5, 6), (100, 0, 100, 7)]
+    n = 0
+    for remap in (False, True):
+        for ignore in (False, True):
+            items = []
+            for maps in lists:
+                e = guarded(lambda: mol_run(maps, remap, ignore), szs)
+                items.append((maps, e))
+                ck.case(('ppmol', maps, remap, ignore), nontrivial=not e.startswith('!'))
+                ck.count('pp_molecule:' + ('Ok' if not e.startswith('!') else e))
+                n += 1
+            bt.add_chunked(f'b_ppmol {cbool(remap)} {cbool(ignore)}', items, czs, chunk=60)
+
+    def rxn_run(r, p, g, remap, ignore):
+        data = {k: [{'atoms': atoms_of(m), 'log': []} for m in ms] for k, ms in (('reactants', r), ('products', p), ('reagents', g))}
+        data['log'] = []
+        postprocess_parsed_reaction(data, remap=remap, ignore=ignore)
+        return ''.join(szs(m['mapping']) for m in data['reactants']) + '/' + ''.join(szs(m['mapping']) for m in data['products']) + '/' + \
+            ''.join(szs(m['mapping']) for m in data['reagents'])
+
+    small = [()] + [(a,) for a in (0, 1, 2)] + [(a, b) for a in (0, 1, 2) for b in (0, 1, 2)]
+    rxns = [([a], [b], [c]) for a in small for b in small for c in small]
+    nrand = 300 if ck.tier == 'quick' else 3000
+    for _ in range(nrand):
+        def role():
+            return [tuple(rng.choice((0, 0, 1, 2, 3, 4, 7)) for _ in range(rng.randint(0, 3))) for _ in range(rng.randint(0, 2))]
+        rxns.append((role(), role(), role()))
+    for remap in (False, True):
+        for ignore in (False, True):
+            items = []
+            for r, p, g in rxns:
+                e = guarded(lambda: rxn_run(r, p, g, remap, ignore), str)
+                items.append(((r, p, g), e))
+                ck.case(('pprxn', repr((r, p, g)), remap, ignore), nontrivial=not e.startswith('!'))
+                ck.count('pp_reaction:' + ('Ok' if not e.startswith('!') else e))
+                n += 1
+            bt.add_chunked(f'b_pprxn {cbool(remap)} {cbool(ignore)}', items, lambda t: f'({czss(t[0])}, {czss(t[1])}, {czss(t[2])})', chunk=60)
+    ck.extra['mapping_cases'] = n
+    ck.sample({'pp_molecule': [0, 5, 0, 5, 2], 'ignore': True, 'numbers': guarded(lambda: mol_run((0, 5, 0, 5, 2), False, True), szs)})
+    return bt.run(f'postprocess_parsed_molecule / _reaction == Coq model on {n} map configurations (exhaustive small + random), all flag combinations',
+                  single=lambda t: czs(t) if not (t and isinstance(t[0], list)) else f'({czss(t[0])}, {czss(t[1])}, {czss(t[2])})')
+
+
+# ----------------------------------------------------------------------------------------------------------------
+# 5. smiles(): the record handed to create_molecule and the structure built, against Reader.read
+
+ORG = ['C', 'C', 'C', 'C', 'N', 'O', 'S', 'P', 'F', 'Cl', 'Br', 'I', 'B', 'c', 'c', 'n', 'o', 's']
+BRK = ['[13CH3]', '[NH4+]', '[O-]', '[Fe+2]', '[C@@H]', '[C@H]', '[C@]', '[C@@]', '[Na+]', '[CH2:3]', '[2H]', '[Se]', '[NH3+]', '[N+]', '[CH:1]',
+       '[S-]', '[O--]', '[Cu++]', '[14C]', '[OH-]', '[Si]', '[CH3:12]', '[nH]', '[se]', '[C:3]', '[Zn+2]', '[H]', '[N-:2]', '[C]', '[te]']
+BND = ['', '', '', '', '', '-', '=', '#', '/', '\\', '=', ':', '/', '\\']
+
+
+def ring_digits(k):
+    return str(k) if k < 10 else '%' + str(k)
+
+
+def gen_smiles(rng, maxn=12):
+    """a mostly valid SMILES using every construct of the language: brackets, branches, closures with bonds, dots, direction marks"""
+    n = rng.randint(1, maxn)
+    s = ''
+    depth = 0
+    open_r = []
+    nxt = rng.choice((1, 1, 1, 8, 9, 10))
+    for i in range(n):
+        if i:
+            x = rng.random()
+            if x < 0.06:
+                s += '.'
+            elif x < 0.25:
+                s += '(' + rng.choice(BND)
+                depth += 1
+            elif x < 0.40 and depth:
+                s += ')' + rng.choice(BND)
+                depth -= 1
+            else:
+                s += rng.choice(BND)
+        s += rng.choice(BRK) if rng.random() < 0.25 else rng.choice(ORG)
+        y = rng.random()
+        if y < 0.22:
+            s += rng.choice(('', '', '', '=', '/', '\\', '-')) + ring_digits(nxt)
+            open_r.append(nxt)
+            nxt += 1
+        elif y < 0.5 and open_r:
+            s += rng.choice(('', '', '', '', '/', '\\', '=')) + ring_digits(open_r.pop(rng.randrange(len(open_r))))
+    s += ')' * depth
+    for k in open_r:
+        s += rng.choice(ORG[:13]) + ring_digits(k)
+    return s
+
+
+def gen_reaction(rng):
+    def side():
+        return '.'.join(gen_smiles(rng, 5) for _ in range(rng.randint(0, 3)))
+    s = side() + '>' + (side() if rng.random() < 0.4 else '') + '>' + side()
+    x = rng.random()
+    if x < 0.5:
+        parts = []
+        if rng.random() < 0.7:
+            parts.append('f:' + ','.join('.'.join(str(rng.randint(0, 5)) for _ in range(rng.randint(2, 3))) for _ in range(rng.randint(1, 2))))
+        if rng.random() < 0.5:
+            parts.append('^' + str(rng.randint(1, 7)) + ':' + ','.join(str(rng.randint(0, 9)) for _ in range(rng.randint(1, 3))))
+        s += ' |' + ','.join(parts) + '|'
+    return s
+
+
+def corrupt(rng, s, alpha=ALPHA + ' |^f'):
+    s = list(s)
+    for _ in range(rng.randint(1, 2)):
+        k = rng.random()
+        p = rng.randrange(len(s) + 1)
+        if k < 0.4 or not s:
+            s.insert(p, rng.choice(alpha))
+        elif k < 0.7:
+            del s[min(p, len(s) - 1)]
+        else:
+            s[min(p, len(s) - 1)] = rng.choice(alpha)
+    return ''.join(s)
+
+
+class Hook:
+    """wraps create_molecule (as seen by smiles() and by create_reaction): records the record handed over, probes the
+    structural part alone (skip_calc_implicit=True: atoms, bonds, labels; no hydrogen recheck) and the real outcome"""
+
+    def __init__(self):
+        import sys
+        import chython  # noqa
+        cv = sys.modules['chython.files._convert']
+        sm = sys.modules['chython.files.daylight.smiles']     # (the package attribute of that name is the function)
+        assert hasattr(sm, 'create_molecule') and hasattr(cv, 'create_molecule')
+        self.cv, self.sm = cv, sm
+        self.orig = cv.create_molecule
+        self.calls = []
+
+    def wrapper(self, data, **kw):
+        snap = {'mapping': list(data['mapping']), 'atoms': copy.deepcopy(data['atoms']), 'bonds': list(data['bonds']), 'structural': None}
+        probe = {'mapping': list(data['mapping']), 'atoms': copy.deepcopy(data['atoms']), 'bonds': list(data['bonds'])}
+        try:
+            self.orig(probe, skip_calc_implicit=True)
+        except Exception as e:  # noqa
+            snap['structural'] = e
+        self.calls.append(snap)
+        try:
+            mol = self.orig(data, **kw)
+        except Exception as e:  # noqa
+            snap['raised'] = e
+            raise
+        snap['mol'] = mol
+        return mol
+
+    def __enter__(self):
+        self.cv.create_molecule = self.wrapper
+        self.sm.create_molecule = self.wrapper
+        return self
+
+    def __exit__(self, *a):
+        self.cv.create_molecule = self.orig
+        self.sm.create_molecule = self.orig
+
+
+def smol(snap):
+    """text of a built molecule: atoms in insertion order (final element / isotope / charge / parsed map, parsed hydrogen count and
+    CX radical flag from the record), each with its neighbour dictionary in insertion order"""
+    mol = snap['mol']
+    rec = {}
+    for n, a in zip(snap['mapping'], snap['atoms']):
+        rec[n] = a
+    out = []
+    for n, a in mol._atoms.items():
+        r = rec[n]
+        txt = ('{' + a.atomic_symbol + '|' + sopt(sz, a.isotope) + '|' + sopt(sz, a._parsed_mapping) + '|' + sz(a.charge) + '|' +
+               sopt(sz, r.get('implicit_hydrogens')) + '|-}' + ('*' if r.get('is_radical') else ''))
+        out.append(sz(n) + '=' + txt + '[' + '.'.join(sz(m) + ':' + sz(int(b)) for m, b in mol._bonds[n].items()) + ']')
+    return ','.join(out)
+
+
+def observe(hook, s, ignore, remap):
+    """-> (text | None when the outcome was decided by code outside the model, exception or None)"""
+    from chython import smiles
+    from chython.containers import ReactionContainer
+    hook.calls = []
+    try:
+        res = smiles(s, ignore=ignore, remap=remap)
+    except Exception as e:  # noqa
+        beyond = any('raised' in c and c['structural'] is None for c in hook.calls)
+        return (None if beyond else sexn(e)), e
+    if any('raised' in c and c['structural'] is None for c in hook.calls):
+        return None, None       # a molecule of a reaction dropped by the hydrogen recheck (not modelled)
+    done = [c for c in hook.calls if 'mol' in c]
+    if isinstance(res, ReactionContainer):
+        mols = list(res.reactants) + list(res.products) + list(res.reagents)
+        if len(mols) != len(done) or any(m is not c['mol'] for m, c in zip(mols, done)):
+            return '?reaction molecules are not the created ones', None
+        k1, k2 = len(res.reactants), len(res.reactants) + len(res.products)
+        return 'R ' + ' + '.join(smol(c) for c in done[:k1]) + ' / ' + ' + '.join(smol(c) for c in done[k2:]) + ' / ' + \
+            ' + '.join(smol(c) for c in done[k1:k2]), None
+    if len(done) != 1 or done[0]['mol'] is not res:
+        return '?molecule is not the created one', None
+    return 'M ' + smol(done[0]), None
+
+
+def reader_inputs(ck):
+    rng = random.Random(f'{ck.seed}:c03read')
+    quick = ck.tier == 'quick'
+    out = []
+    small_alpha = 'Cc1(=.>[;!@'
+    for L in (1, 2, 3) if quick else (1, 2, 3, 4):
+        out += [('small', ''.join(t)) for t in itertools.product(small_alpha, repeat=L)]
+    fixed = ['', ' ', '  ', 'C C', 'C\tC |^1:0|', ' C', 'C ', 'C\n', 'C |', 'C ||', 'C |^1:0|', 'C |^1:1|', 'C |^1:0,0|', 'CC |^1:0,1|', 'CC |^2:1,^1:0|', 'CC |^8:0|',
+             'C.C |f:0.1|', 'C |f:0.1,^1:0|', 'C>>C |^1:0,1|', 'C>>C |^1:2|', 'C.O>> |f:0.1|', 'C.O>N> |f:0.1|', 'C.O>>N |f:0.1|', 'C.C.C>> |f:0.5|',
+             'C.C>C>C |f:0.2|', 'C>C.C>C |f:1.2|', 'C>C.C>C.O |f:1.2,3.4|', 'C>C.C> |f:1.2|', 'C>C.C> |f:0.1|', 'C.C.C>>C.C |f:0.1,3.4|',
+             'C.C.C>>C.C |f:0.1,1.2|', 'C.C.C>>C.C |f:0.2|', 'C.C.C>>C.C |f:2.0|', 'C.C.C>>C.C |f:0.1.2|', '>>', '>', '>>>', 'C>>', '>>C', '>C>', 'C.>>', '.C>>',
+             'C..C>>C', 'C>>C>', '[CH3:1][CH3:1]', '[CH3:1][CH3:2]>>[CH3:2][CH3:1]', '[CH3:1]C>>[CH3:1].[OH2:1]', '[C:1]>[O:1]>[C:1]', '[C:1]>[O:1].[N:1]>[C:2]',
+             '[C:5]C[C:5]', '[C:0]', '[C:0001]', '[C:9999]C', 'C11', 'C12CC12', 'C1CC1', 'C%10CC%10', 'C=1CC1', 'C=1CC=1', 'C=1CC-1', 'C1CC=1', 'C/1CC1',
+             'C/1CC\\1', 'C1CC/1', 'C=1CC/1', 'C/1CC=1', 'c1ccccc1', 'c1ccccc1C', 'c1ccccc1c2ccccc2', 'c1ccccc1-c2ccccc2', 'c:c', 'cc', 'C:C', 'F/C=C/F',
+             'F/C=C\\F', 'F\\C=C/1.F1', 'C(/F)=C/F', 'C(F)(Cl)(Br)I', '[C@](F)(Cl)(Br)I', '[C@@H](F)(Cl)Br', 'N[C@@H](C)C(=O)O', '[13CH4]', '[999C]', '[1C]',
+             '[Zy]', '[Uuo]', '[Cl-]', '[Fe+++]', '[O-2]', '[NH4+]', '[2H]', '[H][H]', '[H]', '[HH]', '(C)C', '(C)', '((C))', 'C(C)(C)', 'C((C))', 'C(C', 'CC)',
+             'C(=O)', 'C()C', 'C(.C)C', 'C.(C)', 'C(.C)', 'C=.C', 'C.=C', 'C==C', 'C=', '=C', 'C-;@C', 'C!~C', ';', ';@', 'C!', 'C-,=C', 'C~C', 'C$C', '*', 'C*',
+             '[*]', 'C1.C1', 'C1C.C1', 'C.1C', 'C%', 'C%1', 'C%1C%1', 'C0', 'C%00', 'Cl', 'Br', 'ClBr', 'Bl', 'Cr', '[Cr]', 'Sc', 'Sn', 'Cn', 'cn', 'B', 'b1ccccc1',
+             'C\xb2', 'C\xb9CC\xb9', 'C1CC1 junk', 'C1CC1\t|^1:0|\textra']
+    out += [('fixed', s) for s in fixed]
+    lip = corpus.sample(corpus.lipo(), 120 if quick else 1200, ck.seed, 'c03read')
+    out += [('corpus', s) for s in lip]
+    out += [('corpus-edit', corrupt(rng, s)) for s in lip[: (80 if quick else 800)]]
+    ngen = 350 if quick else 4000
+    gen = [gen_smiles(rng) for _ in range(ngen)]
+    out += [('generated', s) for s in gen]
+    out += [('generated-edit', corrupt(rng, s)) for s in gen[: ngen // 2]]
+    out += [('generated-cx', s + rng.choice([' |^1:0|', ' |^1:0,2|', ' |^3:1,^1:0|', ' |^1:40|', ' |f:0.1|', ' |', ' ||', ' x'])) for s in gen[: ngen // 6]]
+    nrx = 200 if quick else 2000
+    rx = [gen_reaction(rng) for _ in range(nrx)]
+    out += [('reaction', s) for s in rx]
+    out += [('reaction-edit', corrupt(rng, s)) for s in rx[: nrx // 2]]
+    seen, uniq = set(), []
+    for k, s in out:
+        if s not in seen and all(ord(c) < 256 for c in s):
+            seen.add(s)
+            uniq.append((k, s))
+    return uniq
+
+
+def corr_reader(ck):
+    inputs = reader_inputs(ck)
+    bt = Batches(ck, 'c03read')
+    n = 0
+    skipped = 0
+    by_text = {}
+    with Hook() as hook:
+        for ignore, remap in ((True, False), (False, True)):
+            items = []
+            for kind, s in inputs:
+                txt, exc = observe(hook, s, ignore, remap)
+                if exc is not None and not isinstance(exc, ValueError):
+                    report_crash(ck, s, {'ignore': ignore, 'remap': remap}, exc)
+                if txt is None:
+                    skipped += 1
+                    ck.count('reader:decided-by-hydrogen-recheck(not compared)')
+                    continue
+                items.append((s, txt))
+                n += 1
+                ck.case(('read', s, ignore, remap), nontrivial=not txt.startswith('!'))
+                ck.count(f'reader:{kind}:' + ('Ok' if not txt.startswith('!') else txt))
+            by_text[(ignore, remap)] = items
+            # long corpus strings in small batches, the rest in batches of 40
+            bt.add_chunked(f'b_read {cbool(ignore)} {cbool(remap)}', items, cstr, chunk=25)
+    ck.extra['reader_strings'] = n
+    ck.extra['reader_not_compared'] = skipped
+    ck.sample({'smiles': 'C1CC1[13CH3:7].[Na+] |^1:0|', 'text': by_text[(True, False)][0][1] if by_text[(True, False)] else ''})
+    ok = bt.run(f'smiles() (record handed to create_molecule + atoms, neighbour order, bond orders built; or exception class) == Coq Reader.read '
+                f'on {n} (text, flags) cases: all short texts, fixed boundary cases, corpus, grammar-generated, reactions with CX blocks, single-edit corruptions',
+                single=cstr)
+    if not ok:
+        # directed search on and around what disagreed
+        bad = [c for b in ck.broken for c in b[2]]
+        seeds = []
+        for c in bad:
+            m = re.match(r"\('((?:[^'\\]|\\.)*)', ", c)
+            if m:
+                try:
+                    seeds.append(bytes(m.group(1), 'latin-1').decode('unicode_escape'))
+                except Exception:  # noqa
+                    pass
+        directed_search(ck, seeds or [s for _, s in inputs[:200]])
+    return ok
+
+
+# ----------------------------------------------------------------------------------------------------------------
+# 6. search on the real code: exception classes on a malformed stream; RDKit reading of the same text
+
+def classify(s, **kw):
+    from chython import smiles
+    try:
+        return smiles(s, **kw), None
+    except Exception as e:  # noqa
+        return None, e
+
+
+def minimise(s, pred):
+    """greedy deletion of characters while pred stays true"""
+    changed = True
+    while changed and len(s) > 1:
+        changed = False
+        for i in range(len(s)):
+            t = s[:i] + s[i + 1:]
+            if t and pred(t):
+                s = t
+                changed = True
+                break
+    return s
+
+
+def crash_site(exc):
+    """file:function of the innermost chython frame of the traceback (a stable name for the defect)"""
+    import os
+    site = 'unknown'
+    tb = exc.__traceback__
+    while tb is not None:
+        f = tb.tb_frame.f_code
+        if '/chython/' in f.co_filename:
+            site = os.path.basename(f.co_filename) + ':' + f.co_name
+        tb = tb.tb_next
+    return site
+
+
+def report_crash(ck, s, kw, exc):
+    name = type(exc).__name__
+    site = crash_site(exc)
+
+    def pred(t):
+        _, e = classify(t, **kw)
+        return e is not None and type(e).__name__ == name and not isinstance(e, ValueError)
+    m = minimise(s, pred)
+    ck.counterexample(f'exception-class:{name}:{site}', f'smiles() raises {name} (not a ValueError) in {site}',
+                      {'smiles': m, 'found_as': s, 'kwargs': kw}, f'{name}: {exc}', 'IncorrectSmiles / ValueError, or a molecule', 'exception classification',
+                      replay_py=f"from chython import smiles\ntry:\n    print(smiles({m!r}, **{kw!r}))\nexcept Exception as e:\n    print(type(e).__mro__, e)")
+
+
+def rdkit_graph(s):
+    """RDKit's reading of one molecule text: (atoms [(Z, charge, isotope, map, totalH or None)], bonds {(i, j): order 1/2/3/4}) or None"""
+    from rdkit import Chem
+    raw = Chem.MolFromSmiles(s, sanitize=False)
+    if raw is None:
+        return None
+    san = Chem.MolFromSmiles(s)
+    order = {Chem.BondType.SINGLE: 1, Chem.BondType.DOUBLE: 2, Chem.BondType.TRIPLE: 3, Chem.BondType.AROMATIC: 4}
+    bonds = {}
+    for b in raw.GetBonds():
+        if b.GetBondType() not in order:
+            return None
+        i, j = b.GetBeginAtomIdx(), b.GetEndAtomIdx()
+        bonds[(min(i, j), max(i, j))] = order[b.GetBondType()]
+    atoms = []
+    for a in raw.GetAtoms():
+        h = san.GetAtomWithIdx(a.GetIdx()).GetTotalNumHs(includeNeighbors=True) if san is not None else None
+        atoms.append((a.GetAtomicNum(), a.GetFormalCharge(), a.GetIsotope() or None, a.GetAtomMapNum(), h))
+    return atoms, bonds, san is not None
+
+
+def chython_graph(mol):
+    idx = {n: i for i, n in enumerate(mol._atoms)}
+    atoms = []
+    for n, a in mol._atoms.items():
+        hs = None if a.implicit_hydrogens is None else a.implicit_hydrogens + sum(1 for m in mol._bonds[n] if mol._atoms[m].atomic_number == 1)
+        atoms.append((a.atomic_number, a.charge, a.isotope, n, hs))
+    bonds = {}
+    for n, ms in mol._bonds.items():
+        for m, b in ms.items():
+            i, j = idx[n], idx[m]
+            bonds[(min(i, j), max(i, j))] = int(b)
+    return atoms, bonds
+
+
+def rdkit_compare(ck, s, kind):
+    """compare chython's and RDKit's reading of a molecule text on the common dialect. returns True when compared"""
+    from chython.containers import MoleculeContainer
+    if '>' in s or ' ' in s or '~' in s or '*' in s or '$' in s:
+        return False
+    mol, e = classify(s)
+    if e is not None and not isinstance(e, ValueError):
+        report_crash(ck, s, {}, e)
+        return False
+    try:
+        rd = rdkit_graph(s)
+    except Exception:  # noqa
+        return False
+    if rd is None or mol is None or not isinstance(mol, MoleculeContainer):
+        ck.count(f'rdkit:{kind}:' + ('both-reject' if rd is None and mol is None else 'rdkit-only-rejects' if rd is None else 'chython-only-rejects'))
+        return False
+    ra, rb, sane = rd
+    ca, cb = chython_graph(mol)
+    if mol.meta and any('mismatch' in x or 'radical' in x for x in mol.meta.get('chython_parsing_log', [])):
+        sane = False        # chython itself logged that the written hydrogen count is impossible
+    problems = []
+    if len(ra) != len(ca):
+        problems.append(f'atom count {len(ca)} vs RDKit {len(ra)}')
+    else:
+        for i, (x, y) in enumerate(zip(ca, ra)):
+            if x[:3] != y[:3]:
+                problems.append(f'atom {i}: (Z, charge, isotope) {x[:3]} vs RDKit {y[:3]}')
+            if y[3] and x[3] != y[3] and [t[3] for t in ra].count(y[3]) == 1:
+                problems.append(f'atom {i}: written map {y[3]} but numbered {x[3]}')
+            if sane and x[4] is not None and y[4] is not None and x[4] != y[4] and 4 not in [o for (p, q), o in cb.items() if i in (p, q)] \
+                    and not mol._atoms[list(mol._atoms)[i]].is_radical:
+                problems.append(f'atom {i}: total H {x[4]} vs RDKit {y[4]}')
+        if cb != rb:
+            problems.append(f'bonds differ: only chython {sorted(set(cb.items()) - set(rb.items()))[:4]} only RDKit {sorted(set(rb.items()) - set(cb.items()))[:4]}')
+    ck.case(('rdkit', s), nontrivial=len(ca) > 1)
+    ck.count(f'rdkit:{kind}:compared')
+    if problems:
+        key = f'rdkit-diff:{s}'
+        if len(ra) == len(ca) and len(problems) == 1 and set(cb) == set(rb) and re.search(r'[/\\\\](%\d\d|\d)', s) and \
+                all(cb[k] == 1 and rb[k] == 4 for k in cb if cb[k] != rb[k]):
+            key = 'rdkit-diff:aromatic-closure-with-direction-mark'
+        ck.counterexample(key, 'smiles() builds another graph than RDKit reads from the same text', {'smiles': s, 'kind': kind},
+                          problems[:5], 'same atoms (element, charge, isotope, H total, map) and bonds', 'RDKit MolFromSmiles (as written + sanitized H counts)',
+                          replay_py=f"from chython import smiles\nm = smiles({s!r})\nprint(m, [(n, a.atomic_symbol, a.charge, a.isotope, a.implicit_hydrogens) for n, a in m.atoms()], "
+                                    f"[(n, k, int(b)) for n, k, b in m.bonds()])")
+    return True
+
+
+def rdkit_ez(ck, s):
+    """direction marks (incl. on ring-closure digits): the E/Z labels chython keeps must be the ones RDKit reads"""
+    from rdkit import Chem
+    rd = Chem.MolFromSmiles(s)
+    mol, e = classify(s)
+    if rd is None or mol is None:
+        return False
+    n_rd = sum(1 for b in rd.GetBonds() if b.GetStereo() in (Chem.BondStereo.STEREOE, Chem.BondStereo.STEREOZ))
+    n_ch = sum(1 for *_, b in mol.bonds() if b.stereo is not None)
+    try:
+        text = str(mol)            # the writer is not C03's subject: a molecule it cannot spell is skipped here
+    except Exception:  # noqa
+        return False
+    back = Chem.MolFromSmiles(text)
+    if back is None:
+        return False
+    ck.case(('ez', s), nontrivial=n_rd > 0)
+    ck.count(f'rdkit-ez:double bonds with label={min(n_rd, 3)}')
+    c0, c1 = Chem.MolToSmiles(rd), Chem.MolToSmiles(back)
+    if c0 != c1 and Chem.MolToSmiles(rd, isomericSmiles=False) == Chem.MolToSmiles(back, isomericSmiles=False) and n_ch <= n_rd \
+            and '@' not in c0 and '@' not in c1:
+        ck.counterexample(f'rdkit-ez:{s}', 'cis/trans label read from direction marks differs from RDKit (or is dropped)', {'smiles': s},
+                          {'chython': text, 'reread_by_rdkit': c1, 'labels': n_ch}, {'rdkit': c0, 'labels': n_rd}, 'RDKit canonical isomeric SMILES',
+                          replay_py=f"from chython import smiles\nprint(smiles({s!r}))")
+    return True
+
+
+def ez_family(rng, n):
+    """double bonds whose substituents are attached through ring-closure digits carrying the direction mark at either end"""
+    out = ['C1=C/CCCCCC/1', 'C1=C/CCCCCC\\1', 'C/1=C/CCCCCC1', 'C\\1=C/CCCCCC1', 'F/C=C1.C/1', 'F/C=C1.C\\1', 'F/C=C/1.C1', 'F/C=C\\1.C1',
+           'F/C=C/1.C\\1', 'F/C(Cl)=C1.C/1', 'F/C(Cl)=C(/Br)1.C1', 'F/C=C/C=C/F', 'F/C=C\\C=C/F', 'C(/F)=C/F', 'C(\\F)=C/F', 'F/C=C(/Cl)Br', 'F\\C(Cl)=C(/Br)I',
+           'C/1=C\\CCCCCCC1', 'F/C=C/1CCCCC1', 'F\\C=C/1CC1', 'C1CC1/C=C/C2CC2', 'O=C1/C(=C/c2ccccc2)CCC1']
+    for _ in range(n):
+        a, b = rng.choice('FNOS'), rng.choice(['Cl', 'Br', 'I', 'C'])
+        d1, d2 = rng.choice('/\\'), rng.choice('/\\')
+        form = rng.randrange(6)
+        if form == 0:
+            out.append(f'{a}{d1}C=C1.{b}{d2}1')
+        elif form == 1:
+            out.append(f'{a}{d1}C=C{d2}1.{b}1')
+        elif form == 2:
+            out.append(f'{b}1.{a}{d1}C=C{d2}1')
+        elif form == 3:
+            out.append(f'{b}{d2}1.{a}{d1}C=C1')
+        elif form == 4:
+            out.append(f'C1=C{d1}C{"C" * rng.randint(4, 7)}{d2}1')
+        else:
+            out.append(f'C{d1}1=C{d2}C{"C" * rng.randint(4, 7)}1')
+    return out
+
+
+def directed_search(ck, seeds):
+    """when a correspondence disagrees: the property-level oracles on and around the disagreeing texts"""
+    rng = random.Random(f'{ck.seed}:c03directed')
+    pool = []
+    for s in seeds[:60]:
+        pool.append(s)
+        pool += [corrupt(rng, s) for _ in range(15)]
+        pool += [s[:i] + s[i + 1:] for i in range(min(len(s), 30))]
+    for s in pool:
+        for kw in ({}, {'ignore': False}):
+            _, e = classify(s, **kw)
+            if e is not None and not isinstance(e, ValueError):
+                report_crash(ck, s, kw, e)
+        rdkit_compare(ck, s.split()[0] if s.split() else s, 'directed')
+        if '/' in s or '\\' in s:
+            rdkit_ez(ck, s.split()[0] if s.split() else s)
+    ck.extra['directed_search_texts'] = len(pool)
+
+
+def search(ck):
+    from rdkit import RDLogger
+    RDLogger.DisableLog('rdApp.*')
+    rng = random.Random(f'{ck.seed}:c03search')
+    quick = ck.tier == 'quick'
+    # (1) exception classes on the malformed stream: every exception must be a ValueError
+    alpha = ALPHA + ' |^f\xb2\u0663'
+    stream = [''.join(t) for L in (1, 2) for t in itertools.product(alpha, repeat=L)]
+    lip = corpus.lipo()
+    for _ in range(2500 if quick else 40000):
+        base = rng.choice(lip) if rng.random() < 0.6 else (gen_reaction(rng) if rng.random() < 0.4 else gen_smiles(rng))
+        s = corrupt(rng, base, alpha)
+        if rng.random() < 0.15:
+            s += rng.choice([' |^1:0|', ' |^1:3,99|', ' |f:0.1|', ' |f:0.1,2.3,^2:1|', '>>', '>C>', ' |', ' ||'])
+        stream.append(s)
+    stream += ['C\u0663CC\u0663', 'C%\u0661\u0662CC%12', '[\u0661\u0662C]', 'C\xb2', 'N\\C(S)=C(\\C)/1CCCCC1', 'C-;@C', 'C!~C', ';', ';@', 'C-;@;@C', '(', 'C |^1:5|',
+               'C>>C |^1:5|', 'C.O>> |f:0.1|', '\x00', 'C\x00C', 'C' * 3000, '(' * 500 + 'C' + ')' * 500, 'C1' * 60, '[' + 'C' * 5000 + ']', 'C%99' * 40]
+    n_exc = {}
+    for s in stream:
+        for kw in ({}, {'ignore': False}, {'remap': True, 'ignore_stereo': True}):
+            res, e = classify(s, **kw)
+            ck.case(('exc', s, tuple(kw)), nontrivial=e is not None)
+            key = 'Ok' if e is None else ('ValueError-class:' + type(e).__name__ if isinstance(e, ValueError) else 'OTHER:' + type(e).__name__)
+            n_exc[key] = n_exc.get(key, 0) + 1
+            if e is not None and not isinstance(e, ValueError):
+                report_crash(ck, s, kw, e)
+            if e is None and any(ord(c) > 127 for c in s.split()[0]):
+                ck.counterexample(f'accepted-outside-language:{s}', 'a text with non-ASCII characters in the SMILES part is accepted', {'smiles': s},
+                                  str(res), 'IncorrectSmiles', 'the SMILES alphabet is ASCII', replay_py=f"from chython import smiles\nprint(smiles({s!r}))")
+    for k, v in n_exc.items():
+        ck.count('search-exception:' + k, v)
+    ck.extra['exception_stream_texts'] = len(stream)
+    # (2) RDKit reading of the same text: corpus, grammar-generated, all valid short texts
+    n_cmp = 0
+    for s in corpus.sample(lip, 400 if quick else 4200, ck.seed, 'c03rdkit'):
+        n_cmp += rdkit_compare(ck, s, 'corpus')
+    for _ in range(700 if quick else 8000):
+        n_cmp += rdkit_compare(ck, gen_smiles(rng, 10), 'generated')
+    toks = ['C', 'N', 'O', 'c', 'n', '[nH]', '[NH4+]', '[13CH3]', '[O-]', '[C:2]', 'Cl', '=', '#', '-', ':', '(', ')', '1', '2', '.', '%10']
+    for L in (1, 2, 3) if quick else (1, 2, 3, 4):
+        for t in itertools.product(toks, repeat=L):
+            n_cmp += rdkit_compare(ck, ''.join(t), 'short')
+    ck.extra['rdkit_compared'] = n_cmp
+    # (3) E/Z from direction marks, ring-closure digits included
+    n_ez = 0
+    for s in ez_family(rng, 150 if quick else 2000):
+        n_ez += rdkit_ez(ck, s)
+    for s in corpus.sample([x for x in lip if '/' in x or '\\' in x], 60 if quick else 600, ck.seed, 'c03ez'):
+        n_ez += rdkit_ez(ck, s)
+    ck.extra['rdkit_ez_compared'] = n_ez
+    return True
 
 
 def run(ck):
@@ -374,4 +963,4 @@ def run(ck):
     ck.extra['tied'] = tied
 
 
-STEPS = [('tok', corr_tokenize), ('atom', corr_atom), ('parse', corr_parser)]
+STEPS = [('tok', corr_tokenize), ('atom', corr_atom), ('parse', corr_parser), ('map', corr_mapping), ('read', corr_reader), ('search', search)]
